@@ -564,23 +564,46 @@ func probeCounterexample(p *Program, o *Obl) (res ceResult) {
 			b.WriteString(factText(&Fact{Guard: fct.Guard, T: inst}) + "\n")
 		}
 	}
-	b.WriteString("(assert " + o.Guard.String() + ")\n(assert (not " + o.Goal.String() + "))\n(check-sat)\n(get-value (")
+	b.WriteString("(assert " + o.Guard.String() + ")\n(assert (not " + o.Goal.String() + "))\n")
+	// soft hints of the contract ("cehint"): steer the model towards inputs on which the
+	// abstractions used in the proof do not matter; tried first, dropped if unsatisfiable
+	hints := ""
+	func() {
+		defer func() { recover() }()
+		env := &Env{F: f, State: f.entryState, Old: f.entryState, Fn: f.Fn}
+		for _, cl := range e.TopC.CEHints {
+			hints += "(assert " + f.evalBool(cl.E, env).String() + ")\n"
+		}
+	}()
+	tail := "(check-sat)\n(get-value ("
 	for _, pr := range probes {
-		b.WriteString(pr.t.String() + " ")
+		tail += pr.t.String() + " "
 	}
-	b.WriteString("))\n")
+	tail += "))\n"
 	dir, _ := os.MkdirTemp("", "vcgo-ce-")
 	defer os.RemoveAll(dir)
 	qf := filepath.Join(dir, "ce.smt2")
-	os.WriteFile(qf, []byte(b.String()), 0o644)
 	out := ""
-	for _, s := range []string{"z3-new", "z3"} {
-		ctx, cancel := context.WithTimeout(context.Background(), 25*time.Second)
-		o2, _ := runSolver(ctx, []string{s, "-T:20", qf})
-		cancel()
-		if strings.HasPrefix(strings.TrimSpace(o2), "sat") {
-			out = o2
-			res.report["model_solver"] = s + " (quantifier-free relaxation)"
+	variants := []string{b.String() + tail}
+	if hints != "" {
+		variants = []string{b.String() + hints + tail, b.String() + tail}
+	}
+	for vi, q := range variants {
+		os.WriteFile(qf, []byte(q), 0o644)
+		for _, s := range []string{"z3-new", "z3"} {
+			ctx, cancel := context.WithTimeout(context.Background(), 25*time.Second)
+			o2, _ := runSolver(ctx, []string{s, "-T:20", qf})
+			cancel()
+			if strings.HasPrefix(strings.TrimSpace(o2), "sat") {
+				out = o2
+				res.report["model_solver"] = s + " (quantifier-free relaxation)"
+				if hints != "" && vi == 0 {
+					res.report["model_solver"] = s + " (quantifier-free relaxation, with the contract's cehint constraints)"
+				}
+				break
+			}
+		}
+		if out != "" {
 			break
 		}
 	}
